@@ -63,6 +63,9 @@ def main(argv=None):
     seed = int(os.environ.get('VERIF_SEED', '0') or 0)
     tier = a.tier if a.tier in ('quick', 'thorough') else 'quick'
 
+    if tier == 'thorough' and 'SYMX_QUERY_TIMEOUT_MS' not in os.environ:
+        # (z3's limit is wall-clock time: leave room for a loaded machine)
+        os.environ['SYMX_QUERY_TIMEOUT_MS'] = '120000'
     if tier == 'thorough' and 'SYMX_CVC5' not in os.environ:
         os.environ['SYMX_CVC5'] = '1'
     if os.environ.get('SYMX_CVC5') == '0':
